@@ -157,6 +157,21 @@ CHECKS['C15'] = dict(
     assumptions=['timing only affects how often a broken implementation is caught, never the verdict on a correct one'],
 )
 
+CHECKS['C04'] = dict(
+    pkg='c04', level='exploration',
+    technique='property-based testing with schedule steering: rapid-generated rounds of concurrent conflicting requests, parked inside the storage hooks, checked by brute-force linearizability against the per-key watermark model respecting real-time order',
+    level_text=('Rounds of 2-6 concurrent single/batch attestation and proposal requests over 3 keys (epochs chosen so most pairs conflict; batches list shared keys '
+                'in arbitrary order) run on the real signer stack; a steering plan parks the first arrival at a storage hook (after its read / before its write) for 1-8 ms so '
+                'that an unprotected rival must overlap. Every invocation/response is stamped; all permutations compatible with real-time order (<=720) are replayed through '
+                'the reference watermark model; some permutation must reproduce every verdict and the final exported state (no double approval, no lost update, no spurious refusal).'),
+    level_note='The Go scheduler is steered, not owned: races whose window is not at a storage hook are only sampled. Any outcome of a correctly locked implementation is linearizable whatever the timing.',
+    parts=[part('TestC04', 1500, 12000, qshards=2), part('TestC04Fresh', 150, 1500, qshards=2)],
+    rule=('a case is 1-5 rounds; non-trivial iff some round has two requests on the same key and kind whose [invocation,response] intervals overlapped; '
+          'distinct = sha256 of the case JSON'),
+    essential=['first-lock-contests', 'overlapping-conflicting-pairs', 'attest||attest', 'attest||attests', 'attests||attests', 'propose||propose', 'parked-at-hook'],
+    assumptions=['FAILED answers (none expected without faults) make a round inconclusive, not a violation'],
+)
+
 ENGINES = [
     dict(name='rapid-harness', path='/verif/harness', kind_free_text='Go test module (pgregory.net/rapid v1.3.0) compiled against /repo with -tags verif; driver /verif/check shards by seed, merges coverage, writes evidence',
          serves_properties=sorted(CHECKS)),
